@@ -13,7 +13,7 @@ import argparse, glob, json, os, re, subprocess, sys
 VERIF = os.path.dirname(os.path.abspath(__file__))
 REVERT_PROPS = {"11c231ff": ["C12"], "b1598b18": ["C17"], "6f04c581": ["C12"], "ee272b9c": ["C12"], "47aaac4c": ["C12"], "3e27d57a": ["C12"],
                 "3b300340": ["C12"], "65aa6b83": ["C12"], "fb01c9c5": ["C16"], "3da0c043": ["C07"], "a002ea58": ["C01", "C12"], "e1cd260f": ["C01"],
-                "3b4624e1": ["C01"], "300f347a": ["C12"], "73cf7893": ["C12"], "ca21fd44": ["C12"], "ca21fd44": ["C12"]}
+                "3b4624e1": ["C01"], "300f347a": ["C12"], "73cf7893": ["C12"], "ca21fd44": ["C12"], "ca21fd44": ["C12"], "38279454": ["C12", "C14"]}
 
 
 def main():
